@@ -56,7 +56,7 @@ def run(ck, tier):
     ck.rule("R-C05-statics", "census of statics in the ten crates: each is write-once with a payload free of interior mutability, or a registered scratch/memo whose justification is checked (BUFFERS cleared before use, AUTOMATON_BUILDERS keyed by its only input, CURATED_CONFIG nullary), or logging/CLI plumbing")
     ck.rule("R-C05-key", "cache-key completeness for chunk_pattern_cache: key covers (a) the chunk's characters, (b) the configuration (hash_one(&self.config), Hash feeds every entry), (c) the tokenisation of the chunk, and (d) hits are re-based symmetrically (pull_by before put, push_by after get, same offset); SpellCheck.word_cache is keyed by the word and its value derives only from word/dictionary/dialect")
     ck.rule("R-C05-order", "no randomly seeded iteration order reaches an output: LintGroup's rule tables are BTreeMaps; every iteration over a randomly seeded hash container is classified (reviewed table, exact keys); consumers of the word-map order must sort by a total key before truncating")
-    ck.rule("R-C05-rebuild", "harper-ls rebuilds the LintGroup when the document's dictionary changes (update_document: doc_state.dict != dict => new LintGroup); the WebAssembly Linter rebuilds its merged dictionary and LintGroup after import_words, guarded at most by 'the user dictionary grew' (not by a lookup in the merged dictionary, which folds case while the spell checker does not)")
+    ck.rule("R-C05-rebuild", "harper-ls rebuilds the LintGroup when the document's dictionary changes (update_document: doc_state.dict != dict => new LintGroup); the WebAssembly Linter rebuilds its merged dictionary and LintGroup after import_words, unguarded, or guarded by an exact-spelling look-up of the imported words in the user dictionary (not by 'the count grew' - a word can replace an entry that differs only by case - and not by a lookup in the merged dictionary, which folds case while the spell checker does not)")
     ck.not_decided += ["equality of concrete lint lists across histories (needs execution)", "thread-assignment equivalence beyond 'no shared mutable state other than pure thread-local memos'"]
     p = facts.load()
     byk = fns_by_key(p)
